@@ -53,22 +53,22 @@ type scTran struct {
 }
 
 type scHist struct {
-	tr     *lib.Trace
-	r      *rand.Rand
-	db     *Database
-	ck     *Check
-	hid    int
-	pool   []string // table names, groups of them collide in the hash trie
-	used   map[string]bool
-	trans  []*scTran
-	nextId int
-	ncol   int
-	created []string // table names in creation order
-	wPersist int     // weight of persist steps in this history (0 = never)
-	dropNext string  // first table of the last burst of colliding names
+	tr        *lib.Trace
+	r         *rand.Rand
+	db        *Database
+	ck        *Check
+	hid       int
+	pool      []string // table names, groups of them collide in the hash trie
+	used      map[string]bool
+	trans     []*scTran
+	nextId    int
+	ncol      int
+	created   []string // table names in creation order
+	wPersist  int      // weight of persist steps in this history (0 = never)
+	dropNext  string   // first table of the last burst of colliding names
 	forceName string
-	log    []string
-	failed bool
+	log       []string
+	failed    bool
 }
 
 func (h *scHist) note(format string, args ...any) {
@@ -761,13 +761,19 @@ func TestVerifC02Schema(t *testing.T) {
 	n := lib.N(60)
 	for i := 0; i < n; i++ {
 		h := &scHist{tr: tr, r: r, hid: i}
-		h.run(60)
+		if msg := lib.Catch(func() { h.run(60) }); msg != "" {
+			h.fail("impl-panic", "uncaught panic of the implementation: "+msg)
+		}
 		if i < 2 && len(h.log) > 10 {
 			tr.Sample(strings.Join(h.log[:10], "; ") + " …")
 		}
 	}
 	for i := 0; i < 4*n; i++ {
-		shRename(tr, r)
-		shDropIdx(tr, r)
+		if msg := lib.Catch(func() {
+			shRename(tr, r)
+			shDropIdx(tr, r)
+		}); msg != "" {
+			tr.Fail("impl-panic", "sharing scenario: "+msg)
+		}
 	}
 }
